@@ -104,6 +104,8 @@ def pat_summary(p):
     if k == 'wild':
         return ('wild',)
     if k == 'struct':
+        if p['fields'] and all(f['name'].isdigit() for f in p['fields']):
+            return ('ctor', norm_path(p['res'].get('path', '?')), tuple(pat_summary(f['pat']) for f in p['fields']))
         return ('ctor', norm_path(p['res'].get('path', '?')), tuple((f['name'], pat_summary(f['pat'])) for f in p['fields']))
     if k == 'tstruct':
         return ('ctor', norm_path(p['res'].get('path', '?')), tuple(pat_summary(x) for x in p['pats']))
@@ -530,7 +532,7 @@ class Prov:
         return ('list', tuple(self.eval(fn, x, env, d) for x in e['es']))
 
     def ev_index(self, fn, e, env, d):
-        return self.eval(fn, e['base'], env, d)
+        return ('sel', 'index', self.eval(fn, e['base'], env, d), self.eval(fn, e['idx'], env, d))
 
     def ev_if(self, fn, e, env, d):
         c = self.eval(fn, e['cond'], env, d)
@@ -679,7 +681,10 @@ class Prov:
         elif k == 'struct':
             adt = pat['res'].get('path', '?')
             for f in pat['fields']:
-                self.bind_pat(f['pat'], self.project(term, ('field', adt, f['name']), d), env, d)
+                if f['name'].isdigit():
+                    self.bind_pat(f['pat'], self.project(term, ('ctor', adt, int(f['name']), len(pat['fields'])), d), env, d)
+                else:
+                    self.bind_pat(f['pat'], self.project(term, ('field', adt, f['name']), d), env, d)
         elif k == 'tstruct':
             ctor = pat['res'].get('path', '?')
             n = len(pat['pats'])
@@ -817,8 +822,10 @@ class Prov:
         ev = lambda a: self.eval(fn, a, env, d)
         if meth in STRING_XF:
             return ('xf', STRING_XF[meth], recv)
-        if meth in ('first', 'last', 'get', 'nth') and not p.startswith(('std::collections', 'alloc::collections')):
+        if meth in ('first', 'last') and not p.startswith(('std::collections', 'alloc::collections')):
             return ('sel', meth, recv)
+        if meth in ('get', 'nth', 'get_mut') and not p.startswith(('std::collections', 'alloc::collections')) and argn:
+            return ('sel', meth, recv, ev(argn[0]))
         if meth in CLOSURE_RESULT_METHODS and argn:
             clo = ev(argn[-1])
             return self.map_over(recv, clo, d)
@@ -1137,6 +1144,8 @@ def show(t, depth=0, maxd=6):
     """compact human-readable rendering of a term"""
     if not isinstance(t, tuple):
         return repr(t)
+    if not t:
+        return '()'
     if depth > maxd:
         return '…'
     tag = t[0]
